@@ -92,9 +92,15 @@ def tamper_rules(prog, chk, pid, tier):
         return ("same", "") if got == orig else ("different", "%d component(s) with other content" % len(got))
 
     stats = {"rejected": 0, "same": 0}
+    undecided: List[str] = []
 
     def judge(kind, label, data, key=sk, bad=None):
-        o, why = outcome(data, key)
+        try:
+            o, why = outcome(data, key)
+        except AnalysisError as e:
+            # the damaged byte makes the parse depend on symbolic (MAC / payload) bytes: this variant is not decided, it is listed
+            undecided.append("%s: %s" % (label, str(e).split("\n")[0][-90:]))
+            return bad
         if o in stats:
             stats[o] += 1
             return bad
@@ -142,6 +148,9 @@ def tamper_rules(prog, chk, pid, tier):
     o, why = outcome(img, mk("param", "other_key"))
     chk.require(o == "rejected", P("tamper-wrong-key"), fr.qualname, "authentic image read under another session key", where, "reading with a different session key is rejected", "image read under another key: %s %s" % (o, why))
     chk.info["tamper_runs"] = stk.runs
+    chk.info["tamper_variants_not_decided"] = undecided[:40]
+    if len(undecided) > max(12, stk.runs // 20):
+        raise AnalysisError("%d of %d damaged-image variants could not be decided (first: %s)" % (len(undecided), stk.runs, undecided[0]))
     chk.info["tamper_rejected"] = stats["rejected"]
     chk.info["tamper_read_as_original"] = stats["same"]
     chk.assume("scenario axiom: block-cipher outputs of different inputs differ and a tampered byte differs from the byte it replaced (AES-CBC-MAC unforgeability, the property's own assumption)")
